@@ -103,6 +103,28 @@ def tables(rng):
         vs = list(cint.boundary_values(t))
         if t != 'bool':
             vs += [rng.randrange(cint.tmin(t), cint.tmax(t) + 1) for _ in range(6)]
+        # integers whose conversion to float / double must round: exact ties, one above and one below a tie, odd and even kept parts, at every magnitude
+        if t in ('i64', 'u64', 'i32', 'u32'):
+            top = 64 if t == 'u64' else 63 if t == 'i64' else 32 if t == 'u32' else 31
+            for keep in (24, 53):
+                if keep >= top:
+                    continue
+                for _ in range(6):
+                    width = rng.randrange(keep + 1, top + 1)            # total significant bits of the value
+                    drop = width - keep
+                    m = (1 << (keep - 1)) | rng.getrandbits(keep - 1)   # kept part with leading 1
+                    if rng.random() < 0.5:
+                        m |= 1
+                    else:
+                        m &= ~1
+                    half = 1 << (drop - 1)
+                    r = rng.choice([half, half + 1, half - 1, half | rng.getrandbits(max(1, drop - 1)) | 1, 1, (1 << drop) - 1]) & ((1 << drop) - 1)
+                    v = (m << drop) | r
+                    vs.append(v)
+                    if t in ('i64', 'i32') and rng.random() < 0.5:
+                        vs.append(-v)
+            if t == 'u64':
+                vs += [0x8000000000000401, 0x8000000000000400, 0x80000000000003ff, 0x8000000000000c01, 0xfffffffffffff401, 0xfffffffffffffbff, 0x8000008000000001, 0x8000018000000000]
         T[t] = vs
     return T
 
@@ -291,6 +313,16 @@ def gen(T, rng, scale):
             '1e-400', '1e400', '1e39f', '3.4028235e38f', '3.4028236e38f', '0x1.000001p0f', '0x1.0000010000001p0f', '1.5e3', '15e2', '.5', '5.', '5.e1', '0x.8p1', '0xap-1f', '1e+2', '1E-2L',
             '123456789012345678901234567890.0', '0.000000000000000000000000000000000000000000001f', '1.17549435e-38f', '1.17549428e-38f', '18446744073709551615.0', '18446744073709551615.0f',
             '18446744073709551616.0L', '0.3L', '1e4931L', '3.3621e-4932L', '1.0F', '2.0l', '0x1.8p1L', '7e22', '8.5e22', '4.35e-6', '2.2250738585072011e-308', '1.7976931348623158e308']
+    # constant expressions with float / double intermediates, folded by the compiler in a static initializer (every intermediate is rounded to its own type)
+    cexprs = ['(float)0.1', '16777216.0f + 1.0f', '0.1f * 3', '(double)(0.1f + 0.2f)', '1.0f / 3.0f', '(float)1e-50', '(double)(float)16777217', '0.1f + 0.2', '(long double)0.1f * 3',
+              '1e38f * 10.0f', '(float)0.1 + (float)0.2', '(0.1f + 0.2f) + 0.3f', '0.1f + (0.2f + 0.3f)', '(float)(0.1 + 0.2)', '1.1f * 1.1f', '(double)1.1f * 1.1f', '16777217.0 - 16777216.0f',
+              '(float)16777217 - 16777216.0f', '(float)9007199254740993.0L', '(double)9007199254740993.0L + 1.0', '0.1L + 0.2', '(float)(1.0L / 3)', '3.0f * (1.0f / 3.0f)', '1e-45f / 2',
+              '-(0.0f)', '0.0f * -1.0f', '(float)-0.0', '1.0f - 1.0f', '(float)1e39', '(double)1e400L', '65504.0f * 1.0009765625f']
+    for ce in cexprs:
+        for t in ('f32', 'f64', 'f80'):
+            n = nbytes(t)
+            obs.append(Obs(lambda k, ce=ce, t=t, n=n: '{ static %s y = %s; OUT(%d, &y, %d); %s z = %s; OUT(%d, &z, %d); static int yi = (int)(%s) == (int)(%s); OUTV(%d, yi); }'
+                           % (cname(t), ce, k, n, cname(t), ce, k, n, ce, ce, k), 'C02|constexpr|%s|%s' % (t, ce), 'constant expression ' + ce, 3, [t, t, 'v']))
     for l in lits:
         t = 'f32' if l[-1] in 'fF' else 'f80' if l[-1] in 'lL' else 'f64'
         n = nbytes(t)
